@@ -3,6 +3,7 @@ import TxdbusModel.Proofs.Wire.AlignSpec
 import TxdbusModel.Proofs.Wire.ConfTop
 import TxdbusModel.Proofs.Wire.FuelFree
 import TxdbusModel.Proofs.Wire.CostVsCode
+import TxdbusModel.Proofs.Wire.NoFds
 /-!
 Property C02 - encoded bytes are exactly the DBus wire format, in both directions.
 
@@ -390,8 +391,55 @@ theorem layout_byte_order (k n : Nat) (i : Int) :
     encUInt .big k n = (encUInt .little k n).reverse ∧ encSInt .big k i = (encSInt .little k i).reverse := by
   simp [encUInt, encSInt]
 
+/-! ## State-leak round (2026-09-30): no descriptor list, and a list that earlier calls have used
+
+`C02_encode` is stated for `marshal(.., oobFDs=[])`.  The harness now also leaves the keyword out and hands one list to
+several calls.  The model is a function of its arguments (a later call cannot differ from the first); what is added here
+is the byte-exactness for the other two shapes of the ARGUMENT (`Proofs/Wire/NoFds`).  `C02_decode` already holds for
+every `fds`. -/
+
+/-- `marshal(sig, values, off, lendian)` without `oobFDs`: for conforming values that hold no descriptor
+(`RepFields .. false ..`) exactly the bytes of the specification; the list stays `None`. -/
+theorem C02_encode_no_list (le : Bool) (ts : List Ty) (pv : PyVal) (items : List PyVal) (vs : List Val)
+    (lall : List PyVal) (k' off : Nat) (bs : Bytes) (fuel : Nat)
+    (hitems : Code.topItems pv = .ok items) (hrep : Code.RepFields lall vs false ts items 0 k')
+    (henc : Spec.encodeAll Spec.alignTable (endianOf le) ts vs off = some bs) (hfuel : depthAll vs ≤ fuel) :
+    Code.marshal fuel (renderAll ts) pv off le none = .ok (bs.length, bs, none) :=
+  Code.NoFds.marshal_eq_spec_noFd Spec.alignTable Code.padOK_spec Code.alignTable_pos le ts pv items vs lall k' off bs fuel
+    hitems hrep henc hfuel
+
+/-- `marshal` entered with a list that already holds `k` descriptors (`fdl.take k`, whatever earlier calls left there):
+exactly the bytes of the specification for the spec values whose descriptors are the indices `k, k+1, ..` into the
+out-of-band array, the new descriptors appended behind the old ones.  (`C02_encode` is `k = 0`.) -/
+theorem C02_encode_initial_list (le : Bool) (ts : List Ty) (pv : PyVal) (items : List PyVal) (vs : List Val)
+    (fdl : List PyVal) (k k' off : Nat) (bs : Bytes) (fuel : Nat)
+    (hitems : Code.topItems pv = .ok items) (hrep : Code.RepFields fdl vs true ts items k k')
+    (henc : Spec.encodeAll Spec.alignTable (endianOf le) ts vs off = some bs) (hfuel : depthAll vs ≤ fuel) :
+    Code.marshal fuel (renderAll ts) pv off le (some (fdl.take k)) = .ok (bs.length, bs, some (fdl.take k')) :=
+  Code.NoFds.marshal_eq_spec_from Spec.alignTable Code.padOK_spec Code.alignTable_pos le ts pv items vs fdl k k' off bs fuel
+    hitems hrep henc hfuel
+
+/-- Satisfiable, and with the bytes spelled out: `yh`, `[Byte(7), 5]`, list `[100, 101]` at entry, little endian at offset 1:
+the byte 7, two bytes of padding to offset 4, the index 2. -/
+example :
+    let ts : List Ty := [.basic .y, .basic .h]
+    let items : List PyVal := [.int .byte 7, .int .plain 5]
+    let vs : List Val := [.int 7, .int 2]
+    let fdl : List PyVal := [.int .plain 100, .int .plain 101, .int .plain 5]
+    Code.topItems (.list items) = .ok items ∧ Code.RepFields fdl vs true ts items 2 3 ∧
+      Spec.encodeAll Spec.alignTable (endianOf true) ts vs 1 = some [7, 0, 0, 2, 0, 0, 0] := by
+  refine ⟨rfl, ?_, by decide⟩
+  refine ⟨_, _, _, _, 2, rfl, rfl, ?_, ?_⟩
+  · simp only [Code.Rep]
+    exact ⟨.y, rfl, Or.inr ⟨by decide, ⟨_, rfl⟩, rfl⟩⟩
+  refine ⟨_, _, _, _, 3, rfl, rfl, ?_, ⟨rfl, rfl, rfl⟩⟩
+  simp only [Code.Rep]
+  exact ⟨.h, rfl, Or.inl ⟨rfl, rfl, rfl, rfl, rfl, rfl⟩⟩
+
 end Txdbus
 
+#print axioms Txdbus.C02_encode_no_list
+#print axioms Txdbus.C02_encode_initial_list
 #print axioms Txdbus.C02_alignTable
 #print axioms Txdbus.C02_padding
 #print axioms Txdbus.C02_encode
